@@ -161,7 +161,7 @@ def frame_jobs(bindir, prop, tier, seed, faults):
 meta("C05", level="exploration", rule="rule F1 (every write is whole pending lines in order, <= capacity, or the oversize metric alone without terminator); " + FRAME_RULE,
      assumptions=FRAME_ASSUME, exhaustive_scope="W1 op-sequence enumeration within the stated small scope (the random / spy / delegate / socket parts are sampled)",
      min_evaluations=20000, must_observe={"underlying_write_attempts": 20000, "enumerated_runs": 10000})
-meta("C06", level="exploration", rule="rule F2 (Ok(n) => n == len; in-order exactly-once conservation; flush Ok leaves nothing, second flush writes nothing; nothing lost at drop; oversize written in its own emit; flush delegation through client and queuing sink); " + FRAME_RULE,
+meta("C06", level="exploration", rule="rule F2 (Ok(n) => n == len; in-order exactly-once conservation; flush Ok leaves nothing, second flush writes nothing; nothing lost at drop; oversize written in its own emit; flush delegation through client and queuing sink); the two clauses 'a flush that returns Ok leaves nothing buffered' and 'a dropped sink has written what it accepted' are also judged on the fault-injected histories of the C07 workload (all fault assignments, random bursts, full spy channel, scripted errno); " + FRAME_RULE,
      assumptions=FRAME_ASSUME, exhaustive_scope="W1 op-sequence enumeration within the stated small scope (the random / spy / delegate / socket parts are sampled)",
      min_evaluations=20000, must_observe={"metrics_accepted": 20000, "enumerated_runs": 10000, "flush_through_queuing_sink_histories": 10, "flush_through_client_histories": 10})
 meta("C19", level="exploration", rule="rule F4 (writes happen only when the next line does not fit in the remaining space - then ALL pending lines go in one datagram -, on the bypass, on flush/drop with data pending, or as the exact-fill write; a line that still fits never triggers a write); " + FRAME_RULE,
@@ -185,7 +185,13 @@ def _c05(bindir, tier, seed):
 
 @plan("C06")
 def _c06(bindir, tier, seed):
-    return frame_jobs(bindir, "C06", tier, seed, False)
+    # C06's statement does not depend on what failed earlier: "flush returned Ok => nothing left" and "dropped => written"
+    # are also judged on histories with injected write failures
+    jobs = frame_jobs(bindir, "C06", tier, seed, False)
+    faulty = frame_jobs(bindir, "C06", tier, seed, True)
+    for j in faulty:
+        j.name = j.name.replace("C06-", "C06-faulty-")
+    return jobs + faulty
 
 
 @plan("C19")
@@ -214,7 +220,7 @@ Q_CONC = ("concurrent histories (2-8 producers on own clones or one shared handl
           "for sequential runs, (capacity, #producers, producer-id trigram in delivery order) for concurrent runs, (window, capacity, counter triple) for forced windows")
 
 
-def q_jobs(bindir, prop, tier, seed, seq_enum=True, caps="unbounded,1,2,3", drop_matrix=False, outcomes=None, focus="mixed", windows=True, seq_random=True, conc=True, miri=False, blocked=False):
+def q_jobs(bindir, prop, tier, seed, seq_enum=True, caps="unbounded,1,2,3", drop_matrix=False, outcomes=None, focus="mixed", windows=True, seq_random=True, conc=True, miri=False, blocked=False, droprace=False):
     quick = tier == QUICK
     jobs = []
     base = ["--property", prop]
@@ -231,6 +237,8 @@ def q_jobs(bindir, prop, tier, seed, seq_enum=True, caps="unbounded,1,2,3", drop
         jobs += shards(bindir, "queue_conc", prop + "-conc", seed, NCPU, base + ["--mode", "conc", "--focus", focus, "--cases", "40" if quick else "1200"], 3400)
     if windows:
         jobs += shards(bindir, "queue_conc", prop + "-windows", seed, 2 if quick else 8, base + ["--mode", "windows", "--cases", "12" if quick else "200"], 3400)
+    if droprace:
+        jobs += shards(bindir, "queue_conc", prop + "-droprace", seed, NCPU, base + ["--mode", "droprace", "--cases", "400" if quick else "30000"], 3400)
     if blocked:
         jobs += shards(bindir, "queue_conc", prop + "-blocked", seed, NCPU, base + ["--mode", "blocked", "--cases", "60" if quick else "4000"], 3400)
     # Miri: compact histories under a random preemptive scheduler, hooks off; virtual-time quiescence
@@ -252,10 +260,10 @@ meta("C08", level="exploration",
 meta("C09", level="exploration",
      rule="rule R4: after the last handle is dropped every accepted metric is still handed over, then SINK_DROP is observed (the wrapped sink is released), then no library thread is left; "
           "drop returns while the gate is closed and never unwinds. Drop matrix: capacities unbounded/0/1/2/3/8 x EVERY occupancy 0..=capacity at the last drop (incl. completely full) x "
-          "worker busy/idle x every ok/err/panic pattern of the remaining metrics x clone dropped first; forced windows C1-C5 park the worker just before it waits and the dropper between "
-          "'flag set' and 'wake-up'; " + Q_SEQ + Q_CONC,
+          "worker busy/idle x every ok/err/panic pattern of the remaining metrics x clone dropped first; forced windows C1-C7 park the worker just before it waits (also with entries queued behind its back) and the dropper between "
+          "'flag set' and 'wake-up'; drop races: the last 2-4 handles are dropped at the same moment on as many threads (spin barrier), with 0-3 metrics queued; " + Q_SEQ + Q_CONC,
      assumptions=Q_ASSUME, exhaustive_scope="the drop matrix and the sequential op-sequence enumeration up to the stated bounds",
-     min_evaluations=2000, must_observe={"sink_drops_observed": 2000, "last_drop_with_full_queue": 20, "last_drop_while_sink_blocked": 100, "forced_stop_windows": 20})
+     min_evaluations=2000, must_observe={"sink_drops_observed": 2000, "last_drop_with_full_queue": 20, "last_drop_while_sink_blocked": 100, "forced_stop_windows": 20, "concurrent_last_drop_races": 1000, "entries_queued_behind_parked_worker": 10})
 meta("C10", level="exploration",
      rule="rule R5: sequential and exact with the worker parked inside the gated sink: emit returns Ok iff accepted - handed_over < capacity (distinguishes capacity c from c+-1), always Ok when "
           "unbounded, Ok(n) => n == len, emit returns while the gate is closed (a call that blocks for good is detected by the calling thread's /proc state), ENTER never on a caller thread, no "
@@ -293,7 +301,7 @@ def _c08(bindir, tier, seed):
 
 @plan("C09")
 def _c09(bindir, tier, seed):
-    return q_jobs(bindir, "C09", tier, seed, caps="unbounded,0,1,2", drop_matrix=True, focus="drop", miri=True)
+    return q_jobs(bindir, "C09", tier, seed, caps="unbounded,0,1,2", drop_matrix=True, focus="drop", miri=True, droprace=True)
 
 
 @plan("C10")
